@@ -500,12 +500,37 @@ func c08Partial(c *mon.Case, p c08P) {
 		target := p.From + uint64(p.K) // height whose delete is hit
 		ctx, cancel := vctx(time.Hour)
 		fired := 0
+		// site names the kind of write unit the injected fault hit: findings are identified by it
+		site := "not-fired"
+		classify := func(u memds.Unit) string {
+			ptr := ""
+			for _, op := range u.Ops {
+				switch op.Key {
+				case "/headers/tail":
+					ptr = "tail-pointer"
+				case "/headers/head":
+					ptr = "head-pointer"
+				}
+			}
+			switch {
+			case len(u.Ops) == 1 && ptr != "":
+				return ptr + "-write"
+			case len(u.Ops) == 1 && u.Ops[0].Del:
+				return "header-key-delete"
+			case len(u.Ops) == 1:
+				return "header-key-put"
+			case ptr != "":
+				return "batch-commit-with-" + ptr
+			}
+			return "batch-commit"
+		}
 		switch p.Fault {
 		case "write": // the k-th write unit after the delete starts fails
 			base := e.d.Attempts()
 			e.d.SetFailWrite(func(n int, u memds.Unit) bool {
 				if n == base+p.K {
 					fired++
+					site = classify(u)
 					return true
 				}
 				return false
@@ -518,6 +543,7 @@ func c08Partial(c *mon.Case, p c08P) {
 				for _, op := range u.Ops {
 					if op.Del && op.Key == want && fired == 0 {
 						fired++
+						site = classify(u)
 						return true
 					}
 				}
@@ -547,6 +573,9 @@ func c08Partial(c *mon.Case, p c08P) {
 		c.Count("faults_fired", fired)
 		c.Class("%s flavour=%s wb=%d restart=%v fault=%s fired=%v err=%v", class, p.Mix.Cfg.Flavour, p.Mix.Cfg.WB, p.Mix.Restart, p.Fault, fired > 0, err != nil)
 		fclass := map[string]string{"write": "ds-write-fault", "heightkey": "ds-write-fault", "hashkey": "ds-write-fault", "deadline": "deadline", "handler": "handler"}[p.Fault]
+		if fclass == "ds-write-fault" {
+			fclass += "@" + site
+		}
 		path := "seq"
 		if p.Mix.Par > 0 && int(p.To-p.From) >= p.Mix.Par {
 			path = "par"
